@@ -45,6 +45,11 @@ def gen(chk):
             data = b32(k) + bytes([fail_at])
             for op in ('ecdsa_sign', 'ecdsa_sign_recoverable'):
                 chk.add('%s #%d %s %s %s' % (op, 3 if fail_at != 255 else 2, h32(mm), h32(d), data.hex()), 'sign_s_zero_then_retry')
+    # inputs that live inside the output object (in-place use): same result as with separate buffers
+    for i in range(chk.scale(12, 200)):
+        d = r.seckey(); m = r.scalar256(); kind = r.below(2); data = None if r.chance(1, 2) else r.bytes(32)
+        for where in (1, 2, 3):
+            chk.add('ecdsa_sign_alias #%d %s %s %s #%d' % (kind, h32(m), h32(d), opt(data), where), 'sign_input_inside_output')
     # --- verification: valid signatures with chosen s (solve for the message), boundary s values
     half = N // 2
     svals = [1, 2, half - 1, half, half + 1, half + 2, N - 1, N - 2, 0]
